@@ -29,7 +29,7 @@ GEN_MODULES = ("Locales",)
 MIN_THEOREMS = 26
 RULE = ("every shipped locale x 7 units x counts 0..200 (quick) / 0..1000 (thorough) x is_now x direction x absolute "
         "through format_diff / DifferenceFormatter.format on real Durations, Intervals or attribute carriers; every rounding "
-        "threshold neighbourhood; diff_for_humans(other) on DateTime/Date/Time; in_words on Durations and Intervals; "
+        "threshold neighbourhood; diff_for_humans(other) on DateTime/Date/Time with the reference given as the pendulum class, its native counterpart, or (Date) a pendulum/native datetime; in_words on Durations and Intervals; "
         "plural/ordinal lambdas on -120..1300; 14 locale tokens x 12 months x 7 weekdays x am/pm. non-trivial = distinct op "
         "that is not a plain mid-range count with the default flags")
 EXHAUSTIVE = {"quick": False, "thorough": True}
@@ -309,6 +309,26 @@ class _Construct(Exception):
     pass
 
 
+def _operand_kind(op, how, b):
+    """the reference value as the pendulum class itself, as its native counterpart, or (Date receiver) as a DateTime at midnight —
+    chosen by a checksum of the op"""
+    import datetime as _dt
+    import zlib
+    p = _P["p"]
+    sel = zlib.crc32(("kind" + repr(op)).encode()) % 4
+    if sel == 1:
+        if how == "dfh-dt":
+            return _dt.datetime(b.year, b.month, b.day, b.hour, b.minute, b.second, b.microsecond, tzinfo=b.tzinfo, fold=b.fold)
+        if how == "dfh-date":
+            return _dt.date(b.year, b.month, b.day)
+        return _dt.time(b.hour, b.minute, b.second, b.microsecond)
+    if sel == 2 and how == "dfh-date":
+        return p.DateTime(b.year, b.month, b.day)                       # naive pendulum DateTime
+    if sel == 3 and how == "dfh-date":
+        return _dt.datetime(b.year, b.month, b.day, 13, 14, 15)          # native datetime: only its date counts
+    return b
+
+
 def impl(op, backend):
     p = _P["p"]
     k = op[0]
@@ -348,6 +368,7 @@ def impl(op, backend):
                 b = p.time(h, mi, sec)
             if inv:          # the instance is LATER than the reference
                 a, b = b, a
+            b = _operand_kind(op, how, b)
             diff = a.diff(b)
             if _attrs(diff) != tuple(c) or bool(diff.invert) != bool(inv):
                 raise _Construct(f"{how} {c} -> {_attrs(diff)} {diff.invert}")
